@@ -32,19 +32,19 @@ for d in sorted(glob.glob(os.path.join(ROOT, "seeded", "*", ""))):
     m = json.load(open(p))
     w = wave_of(os.path.basename(d.rstrip("/")))
     first = verdict(m.get("first_run") or m.get("checks", {}).get("quick"))
-    cur = verdict(m.get("checks", {}).get("quick"))
+    cur = "superseded" if m.get("no_longer_valid") else verdict(m.get("checks", {}).get("quick"))
     rows[w]["n"] += 1
     rows[w]["first_" + first] += 1
     rows[w]["cur_" + cur] += 1
 
-print("| wave | changes | first run: concrete input / correspondence break only / missed / inconclusive | latest run: concrete / correspondence break only / missed |")
+print("| wave | changes | first run: concrete input / correspondence break only / missed / inconclusive | latest run: concrete / correspondence break only / missed / no longer a violation after a later fix |")
 print("|---|---|---|---|")
 tot = collections.Counter()
 for w, label in WAVES:
     c = rows[w]
     tot.update(c)
-    print("| %s | %d | %d / %d / %d / %d | %d / %d / %d |" % (label, c["n"], c["first_concrete"], c["first_corr"], c["first_missed"], c["first_inconclusive"],
-                                                      c["cur_concrete"], c["cur_corr"], c["cur_missed"] + c["cur_inconclusive"] + c["cur_not run"]))
+    print("| %s | %d | %d / %d / %d / %d | %d / %d / %d / %d |" % (label, c["n"], c["first_concrete"], c["first_corr"], c["first_missed"], c["first_inconclusive"],
+                                                      c["cur_concrete"], c["cur_corr"], c["cur_missed"] + c["cur_inconclusive"] + c["cur_not run"], c["cur_superseded"]))
 c = tot
-print("| **all** | %d | %d / %d / %d / %d | %d / %d / %d |" % (c["n"], c["first_concrete"], c["first_corr"], c["first_missed"], c["first_inconclusive"],
-                                                        c["cur_concrete"], c["cur_corr"], c["cur_missed"] + c["cur_inconclusive"] + c["cur_not run"]))
+print("| **all** | %d | %d / %d / %d / %d | %d / %d / %d / %d |" % (c["n"], c["first_concrete"], c["first_corr"], c["first_missed"], c["first_inconclusive"],
+                                                        c["cur_concrete"], c["cur_corr"], c["cur_missed"] + c["cur_inconclusive"] + c["cur_not run"], c["cur_superseded"]))
